@@ -563,6 +563,12 @@ def callbacks_oracle(obs, x, expect_no_start=False):
     evs = [e for e in obs.events if e.get('label') == x.label]
     first_s3 = min([e['n'] for e in evs if e['kind'] == 'api.begin'], default=None)
     cancel_ns = [e['n'] for e in obs.events if e['kind'] == 'cancel.begin']
+    for e in evs:
+        if e['kind'] == 'cb.result_probe' and e.get('where') == 'on_done' and e.get('blocked'):
+            out.append(V(f'{x.label}/{e["sub"]}: result() called from another thread while on_done was running did not return: the process came '
+                         f'to rest with the caller still inside result() (on_done must run only once result() no longer blocks)', **mech,
+                         sym='result-blocks-during-on_done'))
+            break
     for s in x.subs:
         q = [e for e in evs if e['kind'] == 'cb.on_queued' and e['sub'] == s.name]
         dn = [e for e in evs if e['kind'] == 'cb.on_done' and e['sub'] == s.name]
